@@ -1071,3 +1071,38 @@ Proof.
   - now apply not_sig_other_type.
   - now apply not_sig_other_mt.
 Qed.
+
+(* ---------- what a successful push leaves in every later store (used by C19_Compose) ---------- *)
+Lemma push_entries_present : forall ops1 p ops2 st1' bd md a,
+  forallb wf_op (ops1 ++ OpPush p :: ops2) = true ->
+  push_sig (state_after ops1) p = (st1', RPush 0 bd md a) ->
+  lookup_dg (state_after ops1) (p_mdg p) = None -> p_mdg p <> p_bdg p -> p_mdg p <> DG_EMPTY ->
+  let st := state_after (ops1 ++ OpPush p :: ops2) in
+  Inv st /\ In (man_entry p a) st /\ In (env_entry p) st /\
+  ensure_created (p_ann p) (p_now p) (p_cvalid p) = Some a /\ bd = blob_desc p /\ md = man_desc p.
+Proof.
+  intros ops1 p ops2 st1' bd md a W HP Lm N1 N2 st.
+  rewrite forallb_app in W. apply andb_true_iff in W as [W1 W2].
+  assert (Wp : wf_op (OpPush p) = true) by (cbn [forallb] in W2; apply andb_true_iff in W2; tauto).
+  assert (W3 : forallb wf_op ops2 = true) by (cbn [forallb] in W2; apply andb_true_iff in W2; tauto).
+  pose proof (state_after_inv ops1 W1) as I1.
+  assert (Est : st = fst (run_ops st1' ops2)).
+  { unfold st, state_after. rewrite run_ops_app, run_ops_cons. cbn [fst step].
+    fold (state_after ops1). now rewrite HP. }
+  set (s1 := state_after ops1) in *.
+  destruct (push_sig_sim s1 p I1 Wp) as (_ & _ & I1' & _). rewrite HP in I1'. cbn [fst] in I1'.
+  destruct (run_inv ops2 st1' I1' W3) as [I G]. rewrite <- Est in I, G.
+  destruct (push_sig_cases s1 p) as [(_ & E)|[(_ & _ & E)|[(_ & _ & E)|(Lb & a' & EC & E)]]];
+    rewrite HP in E; inversion E; subst st1' bd md a'.
+  clear E.
+  assert (Lm2 : lookup_dg (add_absent (env_entry p :: s1) cfg_entry) (dg_of (man_entry p a)) = None).
+  { apply lookup_add_absent_none.
+    - rewrite lookup_cons. change (dg_of (env_entry p)) with (p_bdg p).
+      change (dg_of (man_entry p a)) with (p_mdg p).
+      assert (X : (p_bdg p =? p_mdg p) = false) by (apply N.eqb_neq; congruence). rewrite X. exact Lm.
+    - change (dg_of cfg_entry) with DG_EMPTY. change (dg_of (man_entry p a)) with (p_mdg p). congruence. }
+  rewrite (add_absent_none _ _ Lm2) in G.
+  split; [exact I|]. split; [eapply grows_in; [exact G|left; reflexivity]|].
+  split; [eapply grows_in; [exact G|]; right; apply in_add_absent; left; reflexivity|].
+  auto.
+Qed.
